@@ -138,3 +138,18 @@ pub fn zstdcat(args: &[String]) {
         Err(_) => std::process::exit(1),
     }
 }
+
+/// CPU time (user + system, in clock ticks of 1/100 s) consumed so far by this process or by process `pid`.
+/// Watchdogs measure CPU time, not wall time: on a loaded machine a starved process makes no progress without hanging.
+pub fn cpu_ticks(pid: Option<u32>) -> u64 {
+    let path = match pid {
+        Some(p) => format!("/proc/{p}/stat"),
+        None => "/proc/self/stat".to_string(),
+    };
+    let s = std::fs::read_to_string(path).unwrap_or_default();
+    // the fields after the command name (which may contain spaces): state is field 3, utime 14, stime 15
+    let rest = s.rsplit(") ").next().unwrap_or("");
+    let f: Vec<&str> = rest.split(' ').collect();
+    let get = |i: usize| f.get(i).and_then(|x| x.parse::<u64>().ok()).unwrap_or(0);
+    get(11) + get(12)
+}
